@@ -60,60 +60,96 @@ func (n *c20namer) paramOfCallee(c *ssa.Call) string {
 			return n.role(fv)
 		}
 	}
-	// a package helper that runs the callback it is given unless that is nil (`callErrorFunc(errorFunc)`)
-	if h := calleeOf(c); h != nil && n.fn != nil && h.Pkg == n.fn.Pkg && len(c.Call.Args) == 1 && callsParamOnceUnlessNil(h) {
-		if u, ok := c.Call.Args[0].(*ssa.UnOp); ok && u.Op == token.MUL {
-			if fv, ok := u.X.(*ssa.FreeVar); ok {
-				return n.role(fv)
+	// a package helper that runs the callback it is given (exactly once, or not at all when it is nil), besides
+	// logging: `callErrorFunc(errorFunc)`, `fail(errorFunc, err)`, `failf(errorFunc, "...", args...)`
+	if h := calleeOf(c); h != nil && n.fn != nil && h.Pkg == n.fn.Pkg {
+		if pi := callsParamOnceUnlessNil(h); pi >= 0 && pi < len(c.Call.Args) {
+			if u, ok := c.Call.Args[pi].(*ssa.UnOp); ok && u.Op == token.MUL {
+				if fv, ok := u.X.(*ssa.FreeVar); ok {
+					return n.role(fv)
+				}
 			}
 		}
 	}
 	return ""
 }
 
-// callsParamOnceUnlessNil: h(f func()) calls f exactly once on every path, except on paths that found f nil, where
-// it calls nothing; it has no other effect (no other calls, no stores).
-func callsParamOnceUnlessNil(h *ssa.Function) bool {
-	if h == nil || h.Blocks == nil || len(h.Params) != 1 || h.Signature.Results().Len() != 0 {
-		return false
+// callsParamOnceUnlessNil: h has one func() parameter f that it calls exactly once on every path - except on paths
+// that found f nil, where it is not called; apart from that h only logs (calls into the logging / fmt / log
+// packages), stores nothing and returns nothing or a constant. Returns the index of f, or -1.
+func callsParamOnceUnlessNil(h *ssa.Function) int {
+	if h == nil || h.Blocks == nil {
+		return -1
 	}
-	if _, isSig := h.Params[0].Type().Underlying().(*types.Signature); !isSig {
-		return false
+	pi := -1
+	for i, p := range h.Params {
+		if sg, isSig := p.Type().Underlying().(*types.Signature); isSig && sg.Params().Len() == 0 && sg.Results().Len() == 0 {
+			if pi >= 0 {
+				return -1
+			}
+			pi = i
+		}
+	}
+	if pi < 0 {
+		return -1
+	}
+	for _, ret := range returnsOf(h) {
+		for _, rv := range ret.Results {
+			if _, isC := rv.(*ssa.Const); !isC {
+				return -1
+			}
+		}
+	}
+	isLog := func(c ssa.CallInstruction) bool {
+		nm := calleeName(c)
+		return strings.Contains(nm, "/logging.") || strings.HasPrefix(nm, "log.") || strings.HasPrefix(nm, "fmt.Sprint") || strings.HasPrefix(nm, "log/slog.")
 	}
 	for _, b := range h.Blocks {
 		for _, in := range b.Instrs {
 			switch x := in.(type) {
-			case *ssa.Store, *ssa.MapUpdate, *ssa.Go, *ssa.Defer, *ssa.Send:
-				return false
+			case *ssa.MapUpdate, *ssa.Go, *ssa.Defer, *ssa.Send:
+				return -1
+			case *ssa.Store:
+				// only into the function's own temporaries (the variadic argument array of a log call)
+				root := x.Addr
+				if ia, ok := root.(*ssa.IndexAddr); ok {
+					root = ia.X
+				}
+				if al, ok := root.(*ssa.Alloc); !ok || al.Parent() != h {
+					return -1
+				}
 			case ssa.CallInstruction:
-				if x.Common().Value != ssa.Value(h.Params[0]) {
-					return false
+				if x.Common().Value != ssa.Value(h.Params[pi]) && !isLog(x) {
+					return -1
 				}
 			}
 		}
 	}
 	paths, ok := enumPaths(h, nil, 64)
 	if !ok {
-		return false
+		return -1
 	}
 	for _, p := range paths {
 		calls := 0
 		for _, in := range p.Instrs() {
-			if _, isC := in.(ssa.CallInstruction); isC {
+			if c, isC := in.(ssa.CallInstruction); isC && c.Common().Value == ssa.Value(h.Params[pi]) {
 				calls++
 			}
 		}
 		foundNil := false
 		for _, cp := range p.Conds {
-			if x, tnn, isNT := nilTest(cp.Cond); isNT && x == ssa.Value(h.Params[0]) && cp.Pol != tnn {
+			if x, tnn, isNT := nilTest(cp.Cond); isNT && x == ssa.Value(h.Params[pi]) && cp.Pol != tnn {
 				foundNil = true
 			}
 		}
 		if !(calls == 1 && !foundNil || calls == 0 && foundNil) {
-			return false
+			return -1
 		}
 	}
-	return len(paths) > 0
+	if len(paths) == 0 {
+		return -1
+	}
+	return pi
 }
 
 // c20roles: the constructors' parameters by position (0 = receiver). The rules speak of these roles; what the
@@ -287,7 +323,10 @@ func retConstBool(r *ssa.Return) (val, ok bool) {
 		return false, false
 	}
 	c, isC := r.Results[0].(*ssa.Const)
-	if !isC || c.Value == nil {
+	if !isC {
+		c = constCallResult(r.Results[0]) // `return fail(errorFunc, err)` with fail returning the constant true
+	}
+	if c == nil || c.Value == nil {
 		return false, false
 	}
 	s := c.Value.ExactString()
